@@ -52,27 +52,28 @@ type corrDef struct {
 }
 
 type corrResult struct {
-	NSigs      int      `json:"nsigs"`
-	NStamps    int      `json:"nstamps"`
-	D          bool     `json:"D"`
-	NewUUID    bool     `json:"newuuid"` // envelope and document identifiers differ from the source's and are set
-	HasCode    bool     `json:"hascode"`
-	Type       string   `json:"type"`
-	Series     string   `json:"series"`
-	IssueDate  string   `json:"issue_date"`
-	NPreceding int      `json:"npreceding"`
-	PreUUID    string   `json:"pre_uuid"`
-	PreType    string   `json:"pre_type"`
-	PreSeries  string   `json:"pre_series"`
-	PreCode    string   `json:"pre_code"`
-	PreDate    string   `json:"pre_date"`
-	PreReason  string   `json:"pre_reason"`
-	PreExt     []string `json:"pre_ext"`
-	PreStamps  []string `json:"pre_stamps"`
-	PreHasTax  bool     `json:"pre_hastax"`
-	PreTaxSame bool     `json:"pre_taxsame"` // preceding.tax equals the source's tax summary
-	Valid      bool     `json:"valid"`       // the result validates
-	Business   string   `json:"business"`    // fingerprint of the business content
+	NSigs        int      `json:"nsigs"`
+	NStamps      int      `json:"nstamps"`
+	D            bool     `json:"D"`
+	NewUUID      bool     `json:"newuuid"` // envelope and document identifiers differ from the source's and are set
+	HasCode      bool     `json:"hascode"`
+	Type         string   `json:"type"`
+	Series       string   `json:"series"`
+	IssueDate    string   `json:"issue_date"`
+	NPreceding   int      `json:"npreceding"`
+	PreUUID      string   `json:"pre_uuid"`
+	PreType      string   `json:"pre_type"`
+	PreSeries    string   `json:"pre_series"`
+	PreCode      string   `json:"pre_code"`
+	PreDate      string   `json:"pre_date"`
+	PreReason    string   `json:"pre_reason"`
+	PreExt       []string `json:"pre_ext"`
+	PreStamps    []string `json:"pre_stamps"`
+	PreStampVals []string `json:"pre_stamp_vals"` // provider=value of the stamps in the preceding row
+	PreHasTax    bool     `json:"pre_hastax"`
+	PreTaxSame   bool     `json:"pre_taxsame"` // preceding.tax equals the source's tax summary
+	Valid        bool     `json:"valid"`       // the result validates
+	Business     string   `json:"business"`    // fingerprint of the business content
 }
 
 type corrEvent struct {
@@ -87,6 +88,8 @@ type corrEvent struct {
 	SrcCode           string     `json:"src_code"`
 	SrcDate           string     `json:"src_date"`
 	SrcStamps         []string   `json:"src_stamps"` // providers of the stamps in the source header
+	SrcStampVals      []string   `json:"src_stamp_vals"`
+	ReqStampVals      []string   `json:"req_stamp_vals"`
 	SrcBusiness       string     `json:"src_business"`
 	SrcHasTax         bool       `json:"src_hastax"`
 	Today             string     `json:"today"`
@@ -145,7 +148,7 @@ func business(inv *bill.Invoice) string {
 }
 
 func projectCorr(res *gobl.Envelope, src *gobl.Envelope, srcInv *bill.Invoice) corrResult {
-	r := corrResult{PreExt: []string{}, PreStamps: []string{}}
+	r := corrResult{PreExt: []string{}, PreStamps: []string{}, PreStampVals: []string{}}
 	r.NSigs = len(res.Signatures)
 	if res.Head != nil {
 		r.NStamps = len(res.Head.Stamps)
@@ -173,9 +176,13 @@ func projectCorr(res *gobl.Envelope, src *gobl.Envelope, srcInv *bill.Invoice) c
 		}
 		sort.Strings(r.PreExt)
 		for _, s := range p.Stamps {
-			r.PreStamps = append(r.PreStamps, string(s.Provider))
+			if s != nil {
+				r.PreStamps = append(r.PreStamps, string(s.Provider))
+				r.PreStampVals = append(r.PreStampVals, string(s.Provider)+"="+s.Value)
+			}
 		}
 		sort.Strings(r.PreStamps)
+		sort.Strings(r.PreStampVals)
 		r.PreHasTax = p.Tax != nil
 		if p.Tax != nil && srcInv.Totals != nil && srcInv.Totals.Taxes != nil {
 			a, _ := json.Marshal(summaryOf(p.Tax, false))
@@ -366,9 +373,10 @@ func corrRun(repo, combosFile string, maxSrc int, bulkBin, goblBin string, cliEv
 			before, _ := json.Marshal(env)
 			ev := corrEvent{K: "correct", Src: src.name, Path: "lib", Combo: c, Defs: defs, SrcUUID: inv.UUID.String(), SrcType: string(inv.Type),
 				SrcSeries: string(inv.Series), SrcCode: string(inv.Code), SrcDate: inv.IssueDate.String(), SrcStamps: []string{}, SrcBusiness: business(inv),
-				SrcHasTax: inv.Totals != nil && inv.Totals.Taxes != nil, Today: today, ReqExt: []string{}, ReqStamps: []string{}, R: corrResult{PreExt: []string{}, PreStamps: []string{}}}
+				SrcHasTax: inv.Totals != nil && inv.Totals.Taxes != nil, Today: today, ReqExt: []string{}, ReqStamps: []string{}, SrcStampVals: []string{}, ReqStampVals: []string{}, R: corrResult{PreExt: []string{}, PreStamps: []string{}, PreStampVals: []string{}}}
 			for _, s := range env.Head.Stamps {
 				ev.SrcStamps = append(ev.SrcStamps, string(s.Provider))
+				ev.SrcStampVals = append(ev.SrcStampVals, string(s.Provider)+"="+s.Value)
 			}
 			// options, both as functional options and as the JSON the other entry points take
 			var opts []schema.Option
@@ -397,8 +405,9 @@ func corrRun(repo, combosFile string, maxSrc int, bulkBin, goblBin string, cliEv
 			if c.Stamps {
 				var ss []*head.Stamp
 				for _, p := range merged.Stamps {
-					ss = append(ss, &head.Stamp{Provider: cbc.Key(p), Value: "opt-" + p})
+					ss = append(ss, &head.Stamp{Provider: cbc.Key(p), Value: " opt  " + p + " "})
 					ev.ReqStamps = append(ev.ReqStamps, p)
+					ev.ReqStampVals = append(ev.ReqStampVals, p+"= opt  "+p+" ")
 				}
 				if len(ss) > 0 {
 					oj["stamps"] = ss
@@ -441,6 +450,37 @@ func corrRun(repo, combosFile string, maxSrc int, bulkBin, goblBin string, cliEv
 			after, _ := json.Marshal(env)
 			lib.SourceIntact = bytes.Equal(before, after)
 			w.Emit(lib)
+			// ---- library, options given as one complete options value
+			lo := ev
+			lo.Path = "lib-options"
+			func() {
+				defer func() {
+					if p := recover(); p != nil {
+						lo.Panic, lo.Err = true, fmt.Sprint(p)
+					}
+				}()
+				src := new(gobl.Envelope)
+				if err := json.Unmarshal(before, src); err != nil {
+					lo.Err = "reparse: " + err.Error()
+					return
+				}
+				b0, _ := json.Marshal(src)
+				co := new(bill.CorrectionOptions)
+				if err := json.Unmarshal(optsJSON, co); err != nil {
+					lo.Err = "options: " + err.Error()
+					return
+				}
+				res, err := src.Correct(bill.WithOptions(co))
+				if err != nil {
+					lo.Err = err.Error()
+				} else {
+					lo.Ok = true
+					lo.R = projectCorr(res, src, inv)
+				}
+				b1, _ := json.Marshal(src)
+				lo.SourceIntact = bytes.Equal(b0, b1)
+			}()
+			w.Emit(lo)
 			// ---- library, options given as one JSON object (what the command line and bulk entry points pass on);
 			// afterwards the correction is edited in place: the source must not notice either
 			ld := ev
